@@ -1,6 +1,11 @@
 (* Wire interface of unit C19_led (Host/Led.v, Host/RGBLed.v).
 
    pynum p      ::= (0 z) int | (1 (num den)) float | (2 b) bool | (3) non-numeric object
+   argument a   ::= p | (4 i delta sp)     state-relative (Host/RelArgs.v): channel i of the colour the
+                                           MODEL object shows at that point (Led: its brightness) + delta,
+                                           spelled sp = 0 int | 1 bool when 0/1 | 2 float
+   Every op argument (and every flash_pattern entry) is an [a]; the concrete values used are
+   reported back per op ([resolved]).
    case         ::= (cls ctor_args (op ...))
      cls 0 = Led     ctor_args ::= () | (pin)                      () = the default pin
      cls 1 = RGBLed  ctor_args ::= (red_pin green_pin blue_pin)
@@ -15,12 +20,13 @@
    output       ::= (ctor_result (op_out ...))             ((2) = undecodable case)
      ctor_result ::= (0 snapshot) | (1 kind)               kind: 0 ValueError, 1 TypeError
                      (after a failed constructor the op list is not run: op_outs = ())
-     op_out      ::= (0 ret snapshot events) | (1 kind snapshot events)
+     op_out      ::= (0 ret snapshot events resolved) | (1 kind snapshot events resolved)
+     resolved    ::= (p ...)     for flash_pattern ((entry_p ...) p ...)
      ret         ::= (0) None | (1 b) bool | (2 z) int | (3 (p ...)) tuple
      snapshot    ::= Led: (pin_p state brightness)   RGBLed: ((p p p) (r g b) state)
      events      ::= ((0 (num den)) sleep | (1 (z ...)) level ...)     in program order *)
 From Coq Require Import ZArith QArith List Bool.
-From RV Require Import Base.Wire Base.Num Host.Led Host.RGBLed.
+From RV Require Import Base.Wire Base.Num Host.Led Host.RGBLed Host.RelArgs.
 Import ListNotations.
 Import Num.
 Open Scope Z_scope.
@@ -41,34 +47,60 @@ Definition w_ev (e : ev) : wv :=
   | Lvl l => WL [WI 1; WL (map WI l)]
   end.
 
-Definition w_out (snap : wv) (e : list ev) (r : result) : wv :=
+Definition w_out (snap : wv) (e : list ev) (r : result) (resolved : wv) : wv :=
   match r with
-  | Ok x => WL [WI 0; w_ret x; snap; WL (map w_ev e)]
-  | Raised k => WL [WI 1; w_kind k; snap; WL (map w_ev e)]
+  | Ok x => WL [WI 0; w_ret x; snap; WL (map w_ev e); resolved]
+  | Raised k => WL [WI 1; w_kind k; snap; WL (map w_ev e); resolved]
+  end.
+
+Definition un_carg (v : wv) : option carg :=
+  match v with
+  | WL [WI 4; WI i; WI d; WI sp] =>
+      match sp with
+      | 0 => Some (CCur (Z.to_nat i) d SpInt)
+      | 1 => Some (CCur (Z.to_nat i) d SpBool)
+      | 2 => Some (CCur (Z.to_nat i) d SpFloat)
+      | _ => None
+      end
+  | _ => match un_pynum v with Some p => Some (CAbs p) | None => None end
+  end.
+
+Fixpoint un_args (res : carg -> pynum) (l : list wv) : option (list pynum) :=
+  match l with
+  | [] => Some []
+  | v :: rest =>
+      match un_carg v, un_args res rest with
+      | Some a, Some l' => Some (res a :: l')
+      | _, _ => None
+      end
   end.
 
 (* ---------------- Led ---------------- *)
 Definition w_led (s : led) : wv := WL [w_pynum (Led.pin s); wbool (Led.lit s); WI (Led.bright s)].
 
-Definition un_led_op (v : wv) : option Led.op :=
+Definition un_led_rop (s : led) (v : wv) : option (Led.op * wv) :=
+  let with_args (a : list pynum) (o : option Led.op) : option (Led.op * wv) :=
+    match o with Some o' => Some (o', WL (map w_pynum a)) | None => None end in
   match v with
   | WL (WI code :: args) =>
       match code, args with
-      | 0, [] => Some Led.On
-      | 1, [] => Some Led.Off
-      | 2, [] => Some Led.GetState
-      | 3, [] => Some Led.GetBrightness
-      | 5, [] => Some Led.Toggle
+      | 0, [] => Some (Led.On, WL [])
+      | 1, [] => Some (Led.Off, WL [])
+      | 2, [] => Some (Led.GetState, WL [])
+      | 3, [] => Some (Led.GetBrightness, WL [])
+      | 5, [] => Some (Led.Toggle, WL [])
       | 9, WL p :: rest =>
-          match un_pynums p, un_pynums rest with
-          | Some p', Some [] => Some (Led.FlashPattern p' Led.default_flash_delay)
-          | Some p', Some [d] => Some (Led.FlashPattern p' d)
+          match un_args (resolve_led s) p, un_args (resolve_led s) rest with
+          | Some p', Some [] =>
+              Some (Led.FlashPattern p' Led.default_flash_delay, WL [WL (map w_pynum p')])
+          | Some p', Some [d] => Some (Led.FlashPattern p' d, WL [WL (map w_pynum p'); w_pynum d])
           | _, _ => None
           end
       | _, _ =>
-          match un_pynums args with
+          match un_args (resolve_led s) args with
           | None => None
           | Some a =>
+              with_args a
               match code, a with
               | 4, [x] => Some (Led.SetBrightness x)
               | 6, [d] => Some (Led.Blink d Led.default_blink_times)
@@ -86,16 +118,20 @@ Definition un_led_op (v : wv) : option Led.op :=
   | _ => None
   end.
 
+(* decoder for absolute arguments only (reused by Wire/C04_ledW.v): the state is irrelevant then *)
+Definition un_led_op (v : wv) : option Led.op :=
+  match un_led_rop (Led.init Led.default_pin) v with Some (o, _) => Some o | None => None end.
+
 Fixpoint run_led (s : led) (ops : list wv) : option (list wv) :=
   match ops with
   | [] => Some []
   | v :: rest =>
-      match un_led_op v with
+      match un_led_rop s v with
       | None => None
-      | Some o =>
+      | Some (o, resolved) =>
           let '(s', e, r) := Led.step s o in
           match run_led s' rest with
-          | Some outs => Some (w_out (w_led s') e r :: outs)
+          | Some outs => Some (w_out (w_led s') e r resolved :: outs)
           | None => None
           end
       end
@@ -108,13 +144,14 @@ Definition w_rgb (s : rgb) : wv :=
   let '(p1, p2, p3) := RGBLed.pins s in
   WL [WL [w_pynum p1; w_pynum p2; w_pynum p3]; w_triple (RGBLed.color s); wbool (RGBLed.lit s)].
 
-Definition un_rgb_op (v : wv) : option RGBLed.op :=
+Definition un_rgb_rop (s : rgb) (v : wv) : option (RGBLed.op * wv) :=
   match v with
   | WL (WI code :: args) =>
-      match un_pynums args with
+      match un_args (resolve_rgb s) args with
       | None => None
       | Some a =>
           let d255 := RGBLed.default_on in
+          match
           match code, a with
           | 0, [] => Some RGBLed.GetPins
           | 1, [] => Some RGBLed.GetColor
@@ -133,20 +170,25 @@ Definition un_rgb_op (v : wv) : option RGBLed.op :=
           | 7, [r; g; b; t; d] => Some (RGBLed.Blink r g b t d)
           | _, _ => None
           end
+          with Some o => Some (o, WL (map w_pynum a)) | None => None end
       end
   | _ => None
   end.
+
+(* decoder for absolute arguments only (reused by Wire/C04_rgbW.v) *)
+Definition un_rgb_op (v : wv) : option RGBLed.op :=
+  match un_rgb_rop (mkRgb (PI 0, PI 0, PI 0) (0, 0, 0) false) v with Some (o, _) => Some o | None => None end.
 
 Fixpoint run_rgb (s : rgb) (ops : list wv) : option (list wv) :=
   match ops with
   | [] => Some []
   | v :: rest =>
-      match un_rgb_op v with
+      match un_rgb_rop s v with
       | None => None
-      | Some o =>
+      | Some (o, resolved) =>
           let '(s', e, r) := RGBLed.step s o in
           match run_rgb s' rest with
-          | Some outs => Some (w_out (w_rgb s') e r :: outs)
+          | Some outs => Some (w_out (w_rgb s') e r resolved :: outs)
           | None => None
           end
       end
